@@ -219,6 +219,13 @@ def synthetic_cases():
         for ident in ('fo', 'foobar', 'k.ba', 'K.b'):
             out.append((h2 + 'print(' + ident + ')\n', (nlines + 1, len('print(' + ident)), 'line-separators:' + label))
             out.append((h2 + 'y = ' + ident + '\rz = 1\r\n', (nlines + 1, len('y = ' + ident)), 'line-separators:' + label))
+    # a continuation line that merely STARTS with `from `: part of a raise ... from / yield from, not an import
+    for pre, tail in (('def g(errs):\n    raise ValueError(1) \\\n        from ', ''), ('def g(errs):\n    x = yield \\\n      from ', ''),
+                      ('def g(errs):\n    raise (ValueError(1)\n        ) from \\\n from_ if ', ' else k')):
+        for ident in ('fo', 'foo', 'k.ba', 'k.', 'foobar', 'errs'):
+            text = head + pre + ident + tail + '\n'
+            lines_ = core.plines(head + pre + ident)
+            out.append((text, (len(lines_), len(lines_[-1])), 'continuation-line-starting-with-from'))
     for p in NON_CODE:
         for ident in ('fo', 'k.ba'):
             line = p + ident
